@@ -1,6 +1,7 @@
 package main
 
 import (
+	"bytes"
 	"encoding/json"
 	"math"
 	"math/rand"
@@ -509,7 +510,7 @@ func jnumAny(v interface{}) float64 {
 
 func twkbOnPanic(c Case) Event {
 	return Event{"kind": c.str("kind"), "what": c.str("what"), "g": Event{"t": 1, "c": []int{}}, "q": 0, "ct": "XY", "p": 0, "pz": 0, "pm": 0,
-		"size": false, "bbox": false, "ids": []int{}, "bytes": []int{}, "err": "", "emptyPointInMulti": false,
+		"size": false, "bbox": false, "ids": []int{}, "bytes": []int{}, "err": "", "emptyPointInMulti": false, "again": true, "stable": true,
 		"dec": Event{"t": 0, "e": true, "c": []int{}}, "decct": "XY", "decerr": "", "hsize": -1, "hbbox": []int{}, "hids": []int{}}
 }
 
@@ -678,6 +679,13 @@ func twkbExec(c Case) Event {
 		return ev
 	}
 	ev["bytes"] = bytesInts(bs)
+	// the same call again, with the very same option values (the writer must not have used up or rewritten what the
+	// caller passed - the id list is the caller's slice), and the first result must not be touched by later calls
+	keep := append([]byte(nil), bs...)
+	bs2, err2 := geom.MarshalTWKB(g, p, opts...)
+	ev["again"] = err2 == nil && bytes.Equal(bs2, keep)
+	_, _ = geom.MarshalTWKB(geom.XY{X: 1, Y: 2}.AsPoint().AsGeometry(), 0)
+	ev["stable"] = bytes.Equal(bs, keep)
 	dg, err := geom.UnmarshalTWKB(bs, geom.NoValidate{})
 	if err != nil {
 		ev["decerr"] = errStr(err)
